@@ -71,6 +71,8 @@ pub struct Bounds {
     pub inner_single: bool,
     /// main starts with one `let PAT = tags` item before the counted items
     pub prefix_let: bool,
+    /// bindings are u8 or u16 (so that a typing-side scoping error shows as a rejection)
+    pub mixed_types: bool,
 }
 
 struct Sk<'c> {
@@ -85,30 +87,38 @@ struct Sk<'c> {
 const NAMES: [&str; 2] = ["a", "b"];
 
 impl<'c> Sk<'c> {
-    fn tag(&mut self) -> Expr {
+    fn bits(&mut self) -> u16 {
+        if self.b.mixed_types && self.c.choose(2) == 1 {
+            16
+        } else {
+            8
+        }
+    }
+    fn tag(&mut self, bits: u16) -> Expr {
         self.next_tag += 1;
-        int(self.next_tag % 250 + 1, 8)
+        int(self.next_tag % 250 + 1, bits)
     }
     fn hole(&mut self) -> Expr {
         let h = Expr::Hole(self.next_hole);
         self.next_hole += 1;
         h
     }
-    fn use_stmt(&mut self, name: &str) -> Stmt {
+    fn use_stmt(&mut self, name: &(String, u16)) -> Stmt {
         let h = self.hole();
-        assert_(jet("eq_8", vec![var(name), h]))
+        assert_(jet(&format!("eq_{}", name.1), vec![var(&name.0), h]))
     }
-    /// a u8 expression: a name in scope or a fresh tag
-    fn atom(&mut self, scope: &[String]) -> Expr {
-        let k = self.c.choose(scope.len() + 1);
-        if k < scope.len() {
-            var(&scope[k])
+    /// an expression of type u<bits>: a name of that type in scope or a fresh tag
+    fn atom(&mut self, scope: &[(String, u16)], bits: u16) -> Expr {
+        let cands: Vec<&(String, u16)> = scope.iter().filter(|x| x.1 == bits).collect();
+        let k = self.c.choose(cands.len() + 1);
+        if k < cands.len() {
+            var(&cands[k].0)
         } else {
-            self.tag()
+            self.tag(bits)
         }
     }
     /// patterns over {a, b, _} with at most three leaves, no repeated name
-    fn pattern(&mut self, depth: usize) -> (Pat, Ty, Expr, Vec<String>) {
+    fn pattern(&mut self, depth: usize) -> (Pat, Ty, Expr, Vec<(String, u16)>) {
         let leaf = |i: usize| -> Pat {
             match i {
                 0 => pid("a"),
@@ -142,32 +152,36 @@ impl<'c> Sk<'c> {
             }
             leaves.push(k);
         }
-        let names: Vec<String> = leaves.iter().filter(|k| **k < 2).map(|k| NAMES[*k].to_string()).collect();
-        let tags: Vec<Expr> = (0..n_leaves).map(|_| self.tag()).collect();
-        let t8 = u(8);
+        // arrays are homogeneous; tuple leaves may have different widths
+        let array_shape = shape == 2 || shape == 5;
+        let first_bits = self.bits();
+        let widths: Vec<u16> = (0..n_leaves).map(|i| if array_shape || i == 0 { first_bits } else { self.bits() }).collect();
+        let names: Vec<(String, u16)> = leaves.iter().zip(&widths).filter(|(k, _)| **k < 2).map(|(k, w)| (NAMES[*k].to_string(), *w)).collect();
+        let tags: Vec<Expr> = widths.iter().map(|w| self.tag(*w)).collect();
+        let tys: Vec<Ty> = widths.iter().map(|w| u(*w)).collect();
         let (p, ty, e) = match shape {
-            0 => (leaf(leaves[0]), t8, tags[0].clone()),
-            1 => (Pat::Tuple(vec![leaf(leaves[0]), leaf(leaves[1])]), Ty::Tuple(vec![t8.clone(), t8]), tuple(tags)),
-            2 => (Pat::Array(vec![leaf(leaves[0]), leaf(leaves[1])]), Ty::array(t8, 2), Expr::Array(tags)),
+            0 => (leaf(leaves[0]), tys[0].clone(), tags[0].clone()),
+            1 => (Pat::Tuple(vec![leaf(leaves[0]), leaf(leaves[1])]), Ty::Tuple(tys.clone()), tuple(tags)),
+            2 => (Pat::Array(vec![leaf(leaves[0]), leaf(leaves[1])]), Ty::array(tys[0].clone(), 2), Expr::Array(tags)),
             3 => (
                 Pat::Tuple(vec![leaf(leaves[0]), Pat::Tuple(vec![leaf(leaves[1]), leaf(leaves[2])])]),
-                Ty::Tuple(vec![t8.clone(), Ty::Tuple(vec![t8.clone(), t8])]),
+                Ty::Tuple(vec![tys[0].clone(), Ty::Tuple(vec![tys[1].clone(), tys[2].clone()])]),
                 tuple(vec![tags[0].clone(), tuple(vec![tags[1].clone(), tags[2].clone()])]),
             ),
-            4 => (Pat::Tuple(vec![leaf(leaves[0]), leaf(leaves[1]), leaf(leaves[2])]), Ty::Tuple(vec![t8.clone(), t8.clone(), t8]), tuple(tags)),
-            _ => (Pat::Array(vec![leaf(leaves[0]), leaf(leaves[1]), leaf(leaves[2])]), Ty::array(t8, 3), Expr::Array(tags)),
+            4 => (Pat::Tuple(vec![leaf(leaves[0]), leaf(leaves[1]), leaf(leaves[2])]), Ty::Tuple(tys.clone()), tuple(tags)),
+            _ => (Pat::Array(vec![leaf(leaves[0]), leaf(leaves[1]), leaf(leaves[2])]), Ty::array(tys[0].clone(), 3), Expr::Array(tags)),
         };
         (p, ty, e, names)
     }
 
-    fn items(&mut self, scope: &mut Vec<String>, depth: usize, max_items: usize, out: &mut Vec<Stmt>) {
+    fn items(&mut self, scope: &mut Vec<(String, u16)>, depth: usize, max_items: usize, out: &mut Vec<Stmt>) {
         let n = self.c.choose(max_items + 1);
         for _ in 0..n {
             self.item(scope, depth, out);
         }
     }
 
-    fn item(&mut self, scope: &mut Vec<String>, depth: usize, out: &mut Vec<Stmt>) {
+    fn item(&mut self, scope: &mut Vec<(String, u16)>, depth: usize, out: &mut Vec<Stmt>) {
         let can_nest = depth < self.b.max_depth;
         // 0 let pattern, 1 use, 2 let x = {block}, 3 match Some(tag) {Some(x) => {..}}, 4 let x = f(u, v), 5 match bool arms
         let n_kinds = if can_nest { 6 } else { 2 };
@@ -175,19 +189,19 @@ impl<'c> Sk<'c> {
             0 => {
                 let (p, ty, e, names) = self.pattern(depth);
                 for n in &names {
-                    if scope.contains(n) {
+                    if scope.iter().any(|m| m.0 == n.0) {
                         self.shadowing_matters = true;
                     }
                 }
                 out.push(Stmt::Let(p, ty, e));
                 for n in names {
-                    scope.retain(|m| *m != n);
+                    scope.retain(|m| m.0 != n.0);
                     scope.push(n);
                 }
             }
             1 => {
                 if scope.is_empty() {
-                    let t = self.tag();
+                    let t = self.tag(8);
                     out.push(let_pat(Pat::Ignore, u(8), t));
                 } else {
                     let n = scope[self.c.choose(scope.len())].clone();
@@ -197,28 +211,30 @@ impl<'c> Sk<'c> {
             2 => {
                 // let x: u8 = { items; atom };  -- the block sees the outer bindings, its own vanish afterwards
                 let x = NAMES[self.c.choose(2)].to_string();
+                let w = self.bits();
                 let mut inner_scope = scope.clone();
                 let mut stmts = vec![];
                 self.items(&mut inner_scope, depth + 1, self.b.inner_items, &mut stmts);
-                let res = self.atom(&inner_scope);
+                let res = self.atom(&inner_scope, w);
                 if inner_scope != *scope {
                     self.shadowing_matters = true;
                 }
-                out.push(let_(&x, u(8), block(stmts, Some(res))));
-                scope.retain(|m| *m != x);
-                scope.push(x);
+                out.push(let_(&x, u(w), block(stmts, Some(res))));
+                scope.retain(|m| m.0 != x);
+                scope.push((x, w));
             }
             3 => {
                 // match Some(v) { Some(x: u8) => { items }, None => { items } };
                 let x = NAMES[self.c.choose(2)].to_string();
                 let scrut_is_some = self.c.choose(2) == 0;
-                let v = self.atom(scope);
+                let w = self.bits();
+                let v = self.atom(scope, w);
                 let mut s1 = scope.clone();
-                if s1.contains(&x) {
+                if s1.iter().any(|m| m.0 == x) {
                     self.shadowing_matters = true;
                 }
-                s1.retain(|m| *m != x);
-                s1.push(x.clone());
+                s1.retain(|m| m.0 != x);
+                s1.push((x.clone(), w));
                 let mut some_body = vec![];
                 self.items(&mut s1, depth + 1, self.b.inner_items, &mut some_body);
                 for n in s1.clone() {
@@ -233,7 +249,7 @@ impl<'c> Sk<'c> {
                     kind: MatchKind::Option,
                     scrut: Box::new(scrut),
                     left: Box::new(Arm { binder: None, body: block(none_body, None) }),
-                    right: Box::new(Arm { binder: Some((x, u(8))), body: block(some_body, None) }),
+                    right: Box::new(Arm { binder: Some((x, u(w))), body: block(some_body, None) }),
                     left_first: self.c.choose(2) == 0,
                 };
                 out.push(Stmt::Expr(m));
@@ -243,24 +259,25 @@ impl<'c> Sk<'c> {
                 self.uses_fn = true;
                 let x = NAMES[self.c.choose(2)].to_string();
                 let fname = ["f_ab", "f_ba"][self.c.choose(2)];
-                let u_ = self.atom(scope);
-                let v = self.atom(scope);
+                let u_ = self.atom(scope, 8);
+                let v = self.atom(scope, 8);
                 out.push(let_(&x, u(8), call(fname, vec![u_, v])));
                 self.shadowing_matters = true;
-                scope.retain(|m| *m != x);
-                scope.push(x);
+                scope.retain(|m| m.0 != x);
+                scope.push((x, 8));
             }
             _ => {
                 // match bool: both arms are blocks with their own bindings; Either arm binder shadows
                 let x = NAMES[self.c.choose(2)].to_string();
                 let left_taken = self.c.choose(2) == 0;
-                let v = self.atom(scope);
+                let (wl, wr) = (self.bits(), self.bits());
+                let v = self.atom(scope, if left_taken { wl } else { wr });
                 let mut s1 = scope.clone();
-                if s1.contains(&x) {
+                if s1.iter().any(|m| m.0 == x) {
                     self.shadowing_matters = true;
                 }
-                s1.retain(|m| *m != x);
-                s1.push(x.clone());
+                s1.retain(|m| m.0 != x);
+                s1.push((x.clone(), wl));
                 let mut lb = vec![];
                 self.items(&mut s1, depth + 1, self.b.inner_items, &mut lb);
                 for n in s1.clone() {
@@ -269,15 +286,15 @@ impl<'c> Sk<'c> {
                 }
                 let mut s2 = scope.clone();
                 let y = if x == "a" { "b" } else { "a" }.to_string();
-                s2.retain(|m| *m != y);
-                s2.push(y.clone());
+                s2.retain(|m| m.0 != y);
+                s2.push((y.clone(), wr));
                 let mut rb = vec![];
                 for n in s2.clone() {
                     let u_ = self.use_stmt(&n);
                     rb.push(u_);
                 }
                 let scrut = if left_taken { Expr::Left(Box::new(v)) } else { Expr::Right(Box::new(v)) };
-                out.push(Stmt::Expr(match_either(scrut, &x, u(8), block(lb, None), &y, u(8), block(rb, None))));
+                out.push(Stmt::Expr(match_either(scrut, &x, u(wl), block(lb, None), &y, u(wr), block(rb, None))));
             }
         }
     }
@@ -285,7 +302,7 @@ impl<'c> Sk<'c> {
 
 pub fn skeleton(c: &mut dyn Chooser, b: Bounds) -> (Program, bool) {
     let mut sk = Sk { c, b, next_tag: 0, next_hole: 0, uses_fn: false, shadowing_matters: false };
-    let mut scope: Vec<String> = vec![];
+    let mut scope: Vec<(String, u16)> = vec![];
     let mut stmts = vec![];
     if b.prefix_let {
         let (p, ty, e, names) = sk.pattern(1);
@@ -340,10 +357,10 @@ fn run_one(prog: Program, matters: bool, ctx: &mut Ctx, origin: &str) -> Result<
     Ok(())
 }
 
-const FLAT_QUICK: Bounds = Bounds { max_depth: 1, top_items: 3, inner_items: 0, rich_patterns: false, inner_single: true, prefix_let: false };
-const FLAT_THOROUGH: Bounds = Bounds { max_depth: 1, top_items: 3, inner_items: 0, rich_patterns: true, inner_single: true, prefix_let: false };
-const NESTED_QUICK: Bounds = Bounds { max_depth: 2, top_items: 1, inner_items: 1, rich_patterns: false, inner_single: true, prefix_let: true };
-const NESTED_THOROUGH: Bounds = Bounds { max_depth: 3, top_items: 1, inner_items: 1, rich_patterns: false, inner_single: true, prefix_let: true };
+const FLAT_QUICK: Bounds = Bounds { max_depth: 1, top_items: 3, inner_items: 0, rich_patterns: false, inner_single: true, prefix_let: false, mixed_types: false };
+const FLAT_THOROUGH: Bounds = Bounds { max_depth: 1, top_items: 3, inner_items: 0, rich_patterns: true, inner_single: true, prefix_let: false, mixed_types: false };
+const NESTED_QUICK: Bounds = Bounds { max_depth: 2, top_items: 1, inner_items: 1, rich_patterns: false, inner_single: true, prefix_let: true, mixed_types: false };
+const NESTED_THOROUGH: Bounds = Bounds { max_depth: 3, top_items: 1, inner_items: 1, rich_patterns: false, inner_single: true, prefix_let: true, mixed_types: false };
 
 fn all_paths(b: Bounds, cap: usize) -> (Vec<Vec<usize>>, bool) {
     let mut out = vec![];
@@ -400,7 +417,7 @@ fn e_nested(i: u64, ctx: &mut Ctx) -> Result<(), Failure> {
 }
 
 fn s_random(t: &mut Tape, ctx: &mut Ctx) -> Result<(), Failure> {
-    let b = Bounds { max_depth: 4, top_items: 5, inner_items: 3, rich_patterns: true, inner_single: false, prefix_let: false };
+    let b = Bounds { max_depth: 4, top_items: 5, inner_items: 3, rich_patterns: true, inner_single: false, prefix_let: false, mixed_types: true };
     let (prog, matters) = skeleton(t, b);
     run_one(prog, matters, ctx, "random")
 }
